@@ -482,10 +482,10 @@ func main() {
 		"traces_validated_against_impl":      totalExecs,
 		"executions":                         totalExecs,
 		"evaluations":                        totalExecs,
-		"distinct_nontrivial":                nontrivial,
+		"distinct_nontrivial@set":            nontrivial,
 		"preemption_bound_completed@max":     bound,
 		"preemption_bound_three_threads@max": 2,
-		"scenarios":                          len(perScenario),
+		"scenarios@max":                      len(perScenario),
 		"executions_per_scenario":            perScenario,
 		"max_scheduling_points@max":          maxPoints,
 		"exhaustive":                         complete,
